@@ -1,6 +1,7 @@
 package checks
 
 import (
+	"bytes"
 	"errors"
 	"fmt"
 	"io"
@@ -25,7 +26,7 @@ func init() {
 		Level: "fault_enumeration",
 		Rule: "the C01 packet enumeration plus malformed-but-constructible packets (QoS 3, no filters, no reason codes) and the zero value &T{} of every type, written to a scripted io.Writer. " +
 			"Success path (every packet): exactly one Write call whose bytes are exactly one frame (first byte of the type, minimal remaining-length field equal to the bytes that follow; for in-domain packets the specification decoder consumes them exactly), returned n == bytes accepted == frame length == the N printed by String() as 'N bytes'. " +
-			"Fault path: for the bases, every single-field deviation and the size-ladder packets, the writer fails before writing (0,E) and after accepting k bytes (k,E) for EVERY k below the frame length (frames <= 4 KiB; for larger frames k in {0,1,2,every field boundary of the field map,len-1}): WriteTo must return exactly (k, E) having made one Write call. Undefined.WriteTo must fail without a Write call. Rewrite path: every packet type written once, then changed through every setter (every pair from the full packet), then written again: the second write is judged by the success-path oracle. " +
+			"Decoded path: every frame of the valid-frame language V is decoded and the decoded packet is written (success-path oracle). Fault path: for the bases, every single-field deviation and the size-ladder packets, the writer fails before writing (0,E) and after accepting k bytes (k,E) for EVERY k below the frame length (frames <= 4 KiB; for larger frames k in {0,1,2,every field boundary of the field map,len-1}): WriteTo must return exactly (k, E) having made one Write call; at k in {0,1,len/2,len-1} E additionally takes four other shapes (wrapping io.EOF, io.ErrUnexpectedEOF, io.ErrShortWrite; a net.Error-like value with Temporary() and Timeout() true) and the writer either keeps failing or accepts every later call. Undefined.WriteTo must fail without a Write call. Rewrite path: every packet type (constructor value, full packet, packet decoded from the full frame) written once, then changed through every setter (every pair from the full packet), then written again: the second write is judged by the success-path oracle. " +
 			"distinct_nontrivial = distinct (packet, k) fault cases plus distinct packets on the success path.",
 		Assumptions: []string{
 			"E is a fresh error value per execution; identity is checked with errors.Is",
@@ -107,10 +108,19 @@ func c10Success(q mq.Packet, t byte, specDecodable bool, desc string) *core.Find
 
 // c10Fault: the writer accepts k bytes and fails.
 func c10Fault(q mq.Packet, t byte, k int, desc string) *core.Finding {
+	return c10FaultV(q, t, k, desc, env.EPlain, false)
+}
+
+// c10FaultV: the same with a given shape of the writer's error and,
+// with recoverW, a writer whose later calls succeed again.
+func c10FaultV(q mq.Packet, t byte, k int, desc string, ek env.ErrKind, recoverW bool) *core.Finding {
 	tname := bind.TypeNames[t]
 	resetGlobals()
-	E := &env.InjectedError{Tag: "W"}
-	w := &env.Writer{FailAfter: k, E: E}
+	E := env.NewError(ek, "W")
+	w := &env.Writer{FailAfter: k, E: E, Recover: recoverW}
+	if ek != env.EPlain || recoverW {
+		desc += fmt.Sprintf(" [error shape %s, later Write calls succeed: %v]", ek, recoverW)
+	}
 	var n int64
 	var err error
 	res := guarded(0, func() { n, err = q.WriteTo(w) })
@@ -206,6 +216,33 @@ func runC10(x *core.Ctx) {
 				}, func() *core.Finding { q2, _, _ := buildGuarded(p); return c10Fault(q2, p.Type, kk, desc) })
 			}
 		}
+		// the other error shapes, and a writer that works again after its
+		// one failure, at four representative offsets
+		n := len(w.Buf)
+		for _, kk := range []int{0, 1, n / 2, n - 1} {
+			if kk < 0 || kk >= n {
+				continue
+			}
+			for ek := env.EPlain; ek < env.NErrKinds; ek++ {
+				for _, rec := range []bool{false, true} {
+					if ek == env.EPlain && !rec {
+						continue
+					}
+					x.Eval("fault-shapes." + stratum)
+					if f := c10FaultV(q, p.Type, kk, desc, ek, rec); f != nil {
+						kk, ek, rec := kk, ek, rec
+						x.Report(f, func() core.Case {
+							c := mkCase()
+							c.Params["k"], c.Params["errkind"], c.Params["recover"] = kk, int(ek), rec
+							return c
+						}, func() *core.Finding {
+							q2, _, _ := buildGuarded(p)
+							return c10FaultV(q2, p.Type, kk, desc, ek, rec)
+						})
+					}
+				}
+			}
+		}
 	}
 	enumPackets(x, k, allTypes, func(c *pcase) {
 		if c.P == nil {
@@ -218,7 +255,7 @@ func runC10(x *core.Ctx) {
 				ndev++
 			}
 		}
-		faults := c.Stratum == "S0.base" || c.Stratum == "S2.dev1.empty" || c.Stratum == "S2.dev1.full" || c.Stratum == "S2.dev1.emptywill" || c.Vec == nil
+		faults := c.Stratum == "S0.base" || c.Stratum == "S2.dev1.empty" || c.Stratum == "S2.dev1.full" || c.Stratum == "S2.dev1.emptywill" || (c.Vec == nil && c.Dense == "")
 		cc := *c
 		doPacket(c.P, c.Stratum, c.describe(), faults, func() core.Case { return cc.toCase("c10.packet") })
 		x.Sample(c.Stratum, 1, func() any { return c.describe() })
@@ -229,13 +266,16 @@ func runC10(x *core.Ctx) {
 	// state (a buffer kept from the first write must not show)
 	for _, s := range subjects() {
 		ops := alphabet(s.Name)
-		for _, init := range []string{"full", "new"} {
+		for _, init := range []string{"full", "new", "decoded"} {
+			if makeInit(s, ops, init) == nil {
+				continue
+			}
 			for i := range ops {
 				if !x.Mine() {
 					continue
 				}
 				paths := [][]int{{i}}
-				if init == "full" {
+				if init == "full" || init == "decoded" {
 					for j := range ops {
 						paths = append(paths, []int{i, j})
 					}
@@ -251,6 +291,23 @@ func runC10(x *core.Ctx) {
 					}
 				}
 			}
+		}
+	}
+	// packets that come from the wire: every frame of the valid-frame
+	// language V (any property order, explicit zeros, short forms - also
+	// forms the library's own encoder never emits) is decoded and the
+	// decoded packet is written: success-path oracle
+	for vi, v := range validCorpus() {
+		if !x.Mine() {
+			continue
+		}
+		vi, v := vi, v
+		x.Eval("decoded-then-written")
+		x.Distinct(core.Hash([]byte("decoded"), v.B))
+		if f := c10Decoded(v); f != nil {
+			x.Report(f, func() core.Case {
+				return core.Case{Harness: "c10.decoded", Frame: hexOf(v.B), Params: map[string]any{"index": vi}}
+			}, func() *core.Finding { return c10Decoded(v) })
 		}
 	}
 	if x.Shard == 0 {
@@ -318,8 +375,21 @@ func c10Rewrite(s subject, ops []sop, init string, path []int) *core.Finding {
 	return c10Success(q, t, decodable, fmt.Sprintf("%s (%s) written once, then [%s], written again", s.Name, init, pathNames(ops, path)))
 }
 
+// c10Decoded: decode a valid frame, write the decoded packet.
+func c10Decoded(v VFrame) *core.Finding {
+	resetGlobals()
+	q, err, res := readPacket(bytes.NewReader(v.B), stepBudget(len(v.B)))
+	if err != nil || q == nil || res.Panic != "" || res.Budget {
+		return nil // acceptance of valid frames is C03's business
+	}
+	return c10Success(q, v.B[0]>>4, true, "packet decoded from the valid frame "+v.Name+" ("+abbrevHex(v.B)+")")
+}
+
 func replayC10(c core.Case) *core.Finding {
 	switch c.Harness {
+	case "c10.decoded":
+		b := unhex(c.Frame)
+		return c10Decoded(VFrame{B: b, Name: "replayed"})
 	case "c10.rewrite":
 		for _, s := range subjects() {
 			if s.Name == paramStr(c.Params, "type") {
@@ -334,14 +404,16 @@ func replayC10(c core.Case) *core.Finding {
 			return nil
 		}
 		if _, ok := c.Params["k"]; ok {
-			return c10Fault(q, pc.P.Type, paramInt(c.Params, "k"), pc.describe())
+			rec, _ := c.Params["recover"].(bool)
+			return c10FaultV(q, pc.P.Type, paramInt(c.Params, "k"), pc.describe(), env.ErrKind(paramInt(c.Params, "errkind")), rec)
 		}
 		return c10Success(q, pc.P.Type, inC01Domain(pc.P), pc.describe())
 	case "c10.malformed":
 		p := malformedConstructible()[paramInt(c.Params, "index")]
 		q, _, _ := buildGuarded(p)
 		if _, ok := c.Params["k"]; ok {
-			return c10Fault(q, p.Type, paramInt(c.Params, "k"), "malformed")
+			rec, _ := c.Params["recover"].(bool)
+			return c10FaultV(q, p.Type, paramInt(c.Params, "k"), "malformed", env.ErrKind(paramInt(c.Params, "errkind")), rec)
 		}
 		return c10Success(q, p.Type, false, "malformed")
 	case "c10.zero":
